@@ -131,7 +131,7 @@ Definition map_step (compact : bool) (now ts : Z) (c : cmd) (s : mstate) : mstat
   | CHmset key fvs => H (hR (Map.hmset compact ts key fvs)) key
   | CHdel key fs => H (hG (Map.hdel key fs)) key
   | CHincrby key f d => H (hR (Map.hincrby compact ts key f d)) key
-  | CHclear key => H (hG (Map.hclear compact key)) key
+  | CHclear key => H (hG (Map.hclear compact ts key)) key
   | QHlen key => hq key (Map.hlen key)
   | QHget key f => hq key (Map.hget key f)
   | QHexists key f => hq key (Map.hexists key f)
@@ -143,7 +143,7 @@ Definition map_step (compact : bool) (now ts : Z) (c : cmd) (s : mstate) : mstat
   | CSadd key ms => S (sR (Map.sadd compact ts key ms)) key
   | CSrem key ms => S (sG (Map.srem key ms)) key
   | CSpop key n => S (sG (Map.spop key n)) key
-  | CSclear key => S (sG (Map.sclear compact key)) key
+  | CSclear key => S (sG (Map.sclear compact ts key)) key
   | QScard key => sq key (Map.scard key)
   | QSismember key m => sq key (Map.sismember key m)
   | QSmembers key => sq key (Map.smembers key)
